@@ -61,12 +61,35 @@ def _rows_of_datamodel(dm):
 
 
 class Family:
-    def __init__(self, name, cls, group, make, keys, build, canon_saved, canon_got, npool=5, exports_cached=True):
+    def __init__(self, name, cls, group, make, keys, build, canon_saved, canon_got, npool=5, exports_cached=True, probe_keys=()):
         self.name, self.cls, self.group = name, cls, group
         self.make, self.keys, self.build = make, keys, build
         self.canon_saved, self.canon_got = canon_saved, canon_got
         self.npool = npool
         self.exports_cached = exports_cached      # False for UnitGIRLoader: export() does not fill the bundle cache
+        # ids that are only ever read (get/contain), never saved: twins of saved ids that must NOT be found
+        # (a tuple equal to a CallSite's to_tuple(), a call site differing from the saved ones only in its callee, …)
+        self.probe_keys = list(probe_keys)
+        self.all_keys = list(keys) + self.probe_keys
+
+    def spell(self, ki, n):
+        """The id object handed to the real loader for key index ki at step n.  Different but EQUAL spellings of one id
+        (python int / numpy.int64, a fresh CallSite object, a CallSite built from numpy ints) must name the same item."""
+        import numpy as np
+        from lian.common_structs import CallSite
+        k = self.all_keys[ki]
+        v = n % 3
+        if isinstance(k, CallSite):
+            if v == 1:
+                return CallSite(*k.to_tuple())
+            if v == 2:
+                return CallSite(*[np.int64(x) for x in k.to_tuple()])
+            return k
+        if isinstance(k, int) and not isinstance(k, bool) and k != 0 and v == 1:
+            # numpy.int64(0) is left out on purpose: util.isna() takes it for a missing value (`not element`), a DataModel
+            # quirk that belongs to C16; ids of lian start at config.START_INDEX
+            return np.int64(k)
+        return k
 
     def key_json(self, k):
         from lian.common_structs import CallSite
@@ -102,7 +125,10 @@ def families():
     from lian.config.constants import SYMBOL_OR_STATE
 
     fams = []
-    INT_KEYS = [1, 2, 3]
+    # id alphabet of the int-keyed families: 0 and 1 are also bundle numbers (and 0 is falsy), 3 an ordinary id, the fourth a
+    # negative 64-bit value of the kind the P3 analyses use as context ids (hash of a call site)
+    INT_KEYS = [0, 1, 3, -2181784832106254636]
+    INT_PROBES = [2, -1]          # never saved; -1 is the "still active" bundle number and the id of the LRU sentinel nodes
 
     def general(cls, name, item_schema):
         def make(ws, ic, bc):
@@ -131,7 +157,7 @@ def families():
         return _py(x)
 
     fams.append(Family("scope_hierarchy", "ScopeHierarchyLoader", "unit-level",
-                       general(L.ScopeHierarchyLoader, "scope_hierarchy", []), INT_KEYS, scope_build, scope_saved, dm_got))
+                       general(L.ScopeHierarchyLoader, "scope_hierarchy", []), INT_KEYS, scope_build, scope_saved, dm_got, probe_keys=INT_PROBES))
 
     # ---------------------------------------------------------------- unit level: GIR (export does not cache)
     def gir_build(j, key):
@@ -157,7 +183,7 @@ def families():
         return out
 
     fams.append(Family("gir", "UnitGIRLoader", "unit-level",
-                       general(L.UnitGIRLoader, "gir", []), INT_KEYS, gir_build, gir_saved, dm_got, exports_cached=False))
+                       general(L.UnitGIRLoader, "gir", []), INT_KEYS, gir_build, gir_saved, dm_got, exports_cached=False, probe_keys=INT_PROBES))
 
     # ---------------------------------------------------------------- dict-of-sets per unit
     def names_build(j, key):
@@ -168,17 +194,17 @@ def families():
 
     fams.append(Family("symbol_name_to_scope_ids", "SymbolNameToScopeIDsLoader", "unit-level",
                        general(L.SymbolNameToScopeIDsLoader, "symbol_name_to_scope_ids", []), INT_KEYS,
-                       lambda j, k: {n: set(s) for n, s in names_build(j, k).items()}, setdict_canon, setdict_canon))
+                       lambda j, k: {n: set(s) for n, s in names_build(j, k).items()}, setdict_canon, setdict_canon, probe_keys=INT_PROBES))
     fams.append(Family("symbol_name_to_decl_ids", "SymbolNameToDeclIDsLoader", "unit-level",
                        general(L.SymbolNameToDeclIDsLoader, "symbol_name_to_decl_ids", []), INT_KEYS,
-                       lambda j, k: {n: set(s) for n, s in names_build(j, k).items()}, setdict_canon, setdict_canon))
+                       lambda j, k: {n: set(s) for n, s in names_build(j, k).items()}, setdict_canon, setdict_canon, probe_keys=INT_PROBES))
 
     def avail_build(j, key):
         return [{}, {10: {1}}, {10: {1, 2}, 11: {3}}, {11: {1}}, {10: {4}, 11: {5}, 12: {6, 7}}][j]
 
     fams.append(Family("scope_to_available_scope_ids", "ScopeIDToAvailableScopeIDsLoader", "unit-level",
                        general(L.ScopeIDToAvailableScopeIDsLoader, "scope_to_available_scope_ids", []), INT_KEYS,
-                       lambda j, k: {n: set(s) for n, s in avail_build(j, k).items()}, setdict_canon, setdict_canon))
+                       lambda j, k: {n: set(s) for n, s in avail_build(j, k).items()}, setdict_canon, setdict_canon, probe_keys=INT_PROBES))
 
     def syminfo_build(j, key):
         return [{}, {10: {"a": 1}}, {10: {"a": 1, "b": 2}, 11: {"c": 3}}, {11: {"a": 9}}, {10: {"z": 4}, 11: {"y": 5}, 12: {"x": 6, "w": 7}}][j]
@@ -188,14 +214,14 @@ def families():
 
     fams.append(Family("scope_to_symbol_info", "ScopeIDToSymbolInfoLoader", "unit-level",
                        general(L.ScopeIDToSymbolInfoLoader, "scope_to_symbol_info", []), INT_KEYS,
-                       lambda j, k: {a: dict(b) for a, b in syminfo_build(j, k).items()}, dictdict_canon, dictdict_canon))
+                       lambda j, k: {a: dict(b) for a, b in syminfo_build(j, k).items()}, dictdict_canon, dictdict_canon, probe_keys=INT_PROBES))
 
     def members_build(j, key):
         return [{}, {"f": {1}}, {"f": {1, 2}, "g": {3}}, {"g": {1}}, {"f": {4}, "g": {5}, "h": {6, 7}}][j]
 
     fams.append(Family("class_id_to_members", "ClassIDToMembersLoader", "unit-level",
                        general(L.ClassIDToMembersLoader, "class_to_members", []), INT_KEYS,
-                       lambda j, k: {n: set(s) for n, s in members_build(j, k).items()}, setdict_canon, setdict_canon))
+                       lambda j, k: {n: set(s) for n, s in members_build(j, k).items()}, setdict_canon, setdict_canon, probe_keys=INT_PROBES))
 
     # ---------------------------------------------------------------- graph: CFG
     def cfg_build(j, key):
@@ -211,7 +237,7 @@ def families():
         return _py(g)
 
     fams.append(Family("cfg", "CFGLoader", "graph",
-                       general(L.CFGLoader, "cfg", schema.control_flow_graph_schema), INT_KEYS, cfg_build, edge_canon, edge_canon))
+                       general(L.CFGLoader, "cfg", schema.control_flow_graph_schema), INT_KEYS, cfg_build, edge_canon, edge_canon, probe_keys=INT_PROBES))
 
     # ---------------------------------------------------------------- bit vectors
     def bv_build(j, key):
@@ -235,7 +261,7 @@ def families():
                 "next_free_pos": _py(m.counter)}
 
     fams.append(Family("symbol_bit_vector", "BitVectorManagerLoader", "bit-vector",
-                       general(L.BitVectorManagerLoader, "symbol_bit_vector_p1", []), INT_KEYS, bv_build, bv_canon, bv_canon))
+                       general(L.BitVectorManagerLoader, "symbol_bit_vector_p1", []), INT_KEYS, bv_build, bv_canon, bv_canon, probe_keys=INT_PROBES))
 
     def sbv_build(j, key):
         m = S.BitVectorManager()
@@ -245,7 +271,7 @@ def families():
         return m
 
     fams.append(Family("state_bit_vector", "BitVectorManagerLoader", "bit-vector",
-                       general(L.BitVectorManagerLoader, "state_bit_vector_p2", []), INT_KEYS, sbv_build, bv_canon, bv_canon))
+                       general(L.BitVectorManagerLoader, "state_bit_vector_p2", []), INT_KEYS, sbv_build, bv_canon, bv_canon, probe_keys=INT_PROBES))
 
     # ---------------------------------------------------------------- statement status
     def status_build(j, key):
@@ -280,7 +306,7 @@ def families():
         return out
 
     fams.append(Family("stmt_status", "StmtStatusLoader", "status",
-                       general(L.StmtStatusLoader, "stmt_status_p1", []), INT_KEYS, status_build, status_canon, status_canon))
+                       general(L.StmtStatusLoader, "stmt_status_p1", []), INT_KEYS, status_build, status_canon, status_canon, probe_keys=INT_PROBES))
 
     # ---------------------------------------------------------------- symbol/state space
     def space_build(j, key):
@@ -289,7 +315,8 @@ def families():
         for i in range(n):
             if (i + j) % 2 == 1:
                 sp.add(S.Symbol(stmt_id=10 + i, name=f"s{j}{i}", default_data_type="", states={i + 1} if i + 1 < n else set(),
-                                symbol_id=50 + i, source_unit_id=key))
+                                symbol_id=50 + i, source_unit_id=101))        # a unit id, not the loader id: a 64-bit id in this
+                # column (float64 because State rows leave it empty) would lose precision — pandas, not the loader
             else:
                 sp.add(S.State(stmt_id=10 + i, state_id=200 + 10 * j + i, data_type="int", value=str(i),
                                fields={"f": {1}} if i == 2 else {}, array=[{2}] if i == 3 else [],
@@ -315,10 +342,15 @@ def families():
         return out
 
     fams.append(Family("s2space", "SymbolStateSpaceLoader", "state-space",
-                       general(L.SymbolStateSpaceLoader, "s2space_p1", []), INT_KEYS, space_build, space_canon, space_canon))
+                       general(L.SymbolStateSpaceLoader, "s2space_p1", []), INT_KEYS, space_build, space_canon, space_canon, probe_keys=INT_PROBES))
 
     # ---------------------------------------------------------------- parameter mapping (CallSite keys)
-    CS_KEYS = [S.CallSite(1, 2, 3), S.CallSite(1, 4, 3), S.CallSite(5, 6, 7)]
+    # call sites that differ ONLY in the callee (one call statement, two callees), only in the call statement, only in the
+    # caller: rows inside a bundle are found through hash(call_site), so any two of them must stay distinguishable
+    CS_KEYS = [S.CallSite(1, 2, 3), S.CallSite(1, 2, 9), S.CallSite(1, 4, 3), S.CallSite(5, 2, 3)]
+    # never saved: the tuple twin of a saved call site (same hash, not equal), a third callee of the same call statement,
+    # the call site with caller and callee swapped
+    CS_PROBES = [(1, 2, 3), S.CallSite(1, 2, 4), S.CallSite(3, 2, 1)]
 
     def pm_build(j, key):
         out = []
@@ -343,7 +375,7 @@ def families():
                  "parameter_access_path": ap(p.parameter_access_path), "is_default_value": _py(p.is_default_value)} for p in l]
 
     fams.append(Family("callee_parameter_mapping", "CalleeParameterMapping", "method-level",
-                       general(L.CalleeParameterMapping, "callee_parameter_mapping_p3", []), CS_KEYS, pm_build, pm_canon, pm_canon))
+                       general(L.CalleeParameterMapping, "callee_parameter_mapping_p3", []), CS_KEYS, pm_build, pm_canon, pm_canon, probe_keys=CS_PROBES))
 
     # ---------------------------------------------------------------- defined / used maps
     def defsym_build(j, key):
@@ -357,7 +389,7 @@ def families():
                 for k, v in d.items()}
 
     fams.append(Family("defined_symbols", "MethodSymbolToDefinedLoader", "method-level",
-                       general(L.MethodSymbolToDefinedLoader, "defined_symbols_p1", []), INT_KEYS, defsym_build, defsym_canon, defsym_canon))
+                       general(L.MethodSymbolToDefinedLoader, "defined_symbols_p1", []), INT_KEYS, defsym_build, defsym_canon, defsym_canon, probe_keys=INT_PROBES))
 
     def defst_build(j, key):
         d = [{}, {107: [(0, 11)]}, {107: [(0, 11), (1, 12)], 108: [(2, 13)]}, {109: [(3, 14)]}, {107: [(0, 11)], 108: [(1, 12)], 109: [(2, 13), (3, 14)]}][j]
@@ -370,14 +402,14 @@ def families():
                 for k, v in d.items()}
 
     fams.append(Family("defined_states", "MethodStateToDefinedLoader", "method-level",
-                       general(L.MethodStateToDefinedLoader, "defined_states_p1", []), INT_KEYS, defst_build, defst_canon, defst_canon))
+                       general(L.MethodStateToDefinedLoader, "defined_states_p1", []), INT_KEYS, defst_build, defst_canon, defst_canon, probe_keys=INT_PROBES))
 
     def used_build(j, key):
         return [{}, {7: {11}}, {7: {11, 12}, 8: {13}}, {9: {14}}, {7: {11}, 8: {12}, 9: {13, 14}}][j]
 
     fams.append(Family("used_symbols", "MethodSymbolToUsedLoader", "method-level",
                        general(L.MethodSymbolToUsedLoader, "used_symbols", []), INT_KEYS,
-                       lambda j, k: {a: set(b) for a, b in used_build(j, k).items()}, setdict_canon, setdict_canon))
+                       lambda j, k: {a: set(b) for a, b in used_build(j, k).items()}, setdict_canon, setdict_canon, probe_keys=INT_PROBES))
 
     # ---------------------------------------------------------------- symbol graph
     def sg_build(j, key):
@@ -399,7 +431,7 @@ def families():
         return _sorted([[node(u), node(v), _py(w)] for u, v, w in g.edges(data="weight", default=0)])
 
     fams.append(Family("symbol_graph", "SymbolGraphLoader", "graph",
-                       general(L.SymbolGraphLoader, "symbol_graph", schema.symbol_graph_schema_p2), INT_KEYS, sg_build, sg_canon, sg_canon))
+                       general(L.SymbolGraphLoader, "symbol_graph", schema.symbol_graph_schema_p2), INT_KEYS, sg_build, sg_canon, sg_canon, probe_keys=INT_PROBES))
 
     # ---------------------------------------------------------------- state flow graph
     def sfg_node(t):
@@ -425,7 +457,7 @@ def families():
 
     fams.append(Family("state_flow_graph", "StateFlowGraphLoader", "graph",
                        general(L.StateFlowGraphLoader, "state_flow_graph_p3", schema.state_flow_graph_schema_p2), INT_KEYS,
-                       sfg_build, sfg_canon, sfg_canon))
+                       sfg_build, sfg_canon, sfg_canon, probe_keys=INT_PROBES))
     return fams
 
 
